@@ -35,3 +35,14 @@ Example C20_nonvacuous :
   let s := fold_left step [Map true 4096; Map false 6144; Map true 8192; Unmap 0; Map true 12288] (init 3) in
   tbl s = [Some 8192; Some 12288; Some 6144] /\ live s = [(2, 6144); (0, 8192); (1, 12288)].
 Proof. vm_compute. split; reflexivity. Qed.
+
+(* why choosing and booking a slot must be one step (no await in between): two mappings that both choose before either
+   books are handed the same FMMU *)
+Theorem C20_split_booking_refuted :
+  let u := [None; None] in
+  slot_index u true = Some 1 /\ slot_index u true = slot_index u true /\
+  (forall u1, py_set u 1 (Some 4096) = Some u1 -> slot_index u1 true <> Some 1).
+Proof.
+  split; [reflexivity|]. split; [reflexivity|]. intros u1 H. vm_compute in H. injection H as <-. vm_compute. discriminate.
+Qed.
+Print Assumptions C20_split_booking_refuted.
